@@ -116,7 +116,9 @@ def _same(a, b):
         return isinstance(b, tuple) and len(a) == len(b) and all(_same(x, y) for x, y in zip(a, b))
     a = a.toarray() if hasattr(a, "toarray") else np.asarray(a)
     b = b.toarray() if hasattr(b, "toarray") else np.asarray(b)
-    return a.shape == b.shape and np.array_equal(a, b)
+    # NaN (e.g. the SE(3) interpolation at a denormal xi, where T_SO3_psi underflows) counts as equal to NaN: the
+    # property is about memoisation, not about the value
+    return a.shape == b.shape and np.array_equal(a, b, equal_nan=True)
 
 
 def check(spec):
